@@ -265,7 +265,9 @@ def harnesses(tier):
 
 
 def bounds(tier):
-    return 2 if tier == "quick" else 3
+    # PB 2 in both tiers (the thorough tier has longer sequences, both subscription paths and more replay histories);
+    # PB 3 over 3 notifications did not complete within any reasonable budget
+    return 2
 
 
 def shard(part, shard_i, nshards, tier, seed, deadline, dot_path=None):
